@@ -357,7 +357,9 @@ func parseBigDecimalFloat(str string) (*apd.Decimal, bool) {
 	mantissa := str
 	exponent := int64(0)
 	if i := strings.IndexAny(str, "eE"); i >= 0 {
-		e, err := strconv.ParseInt(str[i+1:], 10, 32)
+		// The written (scientific) exponent of a value with many coefficient
+		// digits can lie outside the 32-bit range although the stored one fits.
+		e, err := strconv.ParseInt(str[i+1:], 10, 40)
 		if err != nil {
 			return nil, false
 		}
